@@ -438,6 +438,8 @@ func (c *Ctx) elementFreshRule(r *Report, rule string) {
 	if fn := c.Method("eap", "EapAkaPrime", "Unmarshal"); fn != nil {
 		dec = append(dec, fn)
 	}
+	ruleKept := strings.TrimSuffix(rule, "element-fresh") + "element-kept"
+	r.Rule(ruleKept, "an object a decoder allocates for a list element inside a loop is collected on every path of that iteration that does not end in an error; a path may leave it out only by a comparison of decoded data with a constant (a type code the decoder does not file), never depending on what was collected before or on another non-constant comparison", 6)
 	seen := map[*ssa.Function]bool{}
 	for _, fn := range c.Reachable(dec...) {
 		if seen[fn] || fn.Blocks == nil {
@@ -447,6 +449,40 @@ func (c *Ctx) elementFreshRule(r *Report, rule string) {
 		loops := naturalLoops(fn)
 		if len(loops) == 0 {
 			continue
+		}
+		// origin (allocation or allocating call of this iteration) -> the instructions that collect it
+		collectors := map[ssa.Instruction][]ssa.Instruction{}
+		collLoop := map[ssa.Instruction]*loopInfo{}
+		var origins []ssa.Instruction
+		var leaves func(v ssa.Value, li *loopInfo, depth int, out *[]ssa.Instruction)
+		leaves = func(v ssa.Value, li *loopInfo, depth int, out *[]ssa.Instruction) {
+			if depth > 6 {
+				return
+			}
+			switch x := v.(type) {
+			case *ssa.Alloc:
+				if li.body[x.Block()] {
+					*out = append(*out, x)
+				}
+			case *ssa.MakeInterface:
+				leaves(x.X, li, depth+1, out)
+			case *ssa.ChangeType:
+				leaves(x.X, li, depth+1, out)
+			case *ssa.ChangeInterface:
+				leaves(x.X, li, depth+1, out)
+			case *ssa.Phi:
+				if li.body[x.Block()] && x.Block() != li.header {
+					for _, e := range x.Edges {
+						leaves(e, li, depth+1, out)
+					}
+				}
+			case *ssa.Call:
+				if li.body[x.Block()] {
+					*out = append(*out, x)
+				}
+			case *ssa.Extract:
+				leaves(x.Tuple, li, depth+1, out)
+			}
 		}
 		innermost := func(b *ssa.BasicBlock) *loopInfo {
 			var best *loopInfo
@@ -573,6 +609,15 @@ func (c *Ctx) elementFreshRule(r *Report, rule string) {
 					}
 					key := fmt.Sprintf("%s: %s of %s", c.FuncName(fn), what, c.SrcExpr(ins))
 					if ok, why := fresh(e, li, 0); ok {
+						var ls []ssa.Instruction
+						leaves(e, li, 0, &ls)
+						for _, o := range ls {
+							if _, known := collectors[o]; !known {
+								origins = append(origins, o)
+							}
+							collectors[o] = append(collectors[o], ins)
+							collLoop[o] = li
+						}
 						r.ok(rule, key, c.InstrPos(ins), "the collected pointer is allocated in the same iteration", true)
 					} else {
 						r.bad(rule, key, c.InstrPos(ins), "a decoded list would hold the same object several times: "+why)
@@ -580,7 +625,133 @@ func (c *Ctx) elementFreshRule(r *Report, rule string) {
 				}
 			}
 		}
+		// element-kept: from the allocation, every path of the iteration collects the object, ends in an error,
+		// or leaves it out by a comparison with a constant
+		for _, o := range origins {
+			li := collLoop[o]
+			S := map[*ssa.BasicBlock]bool{}
+			for _, ci := range collectors[o] {
+				S[ci.Block()] = true
+			}
+			// forward reachability inside the loop body without re-entering the header
+			memo := map[*ssa.BasicBlock]int{}
+			var reachS func(b *ssa.BasicBlock) bool
+			reachS = func(b *ssa.BasicBlock) bool {
+				if S[b] {
+					return true
+				}
+				if v, ok := memo[b]; ok {
+					return v == 1
+				}
+				memo[b] = 2
+				res := false
+				for _, s2 := range b.Succs {
+					if s2 == li.header || !li.body[s2] {
+						continue
+					}
+					if reachS(s2) {
+						res = true
+					}
+				}
+				if res {
+					memo[b] = 1
+				}
+				return res
+			}
+			key := fmt.Sprintf("%s: element allocated at %s", c.FuncName(fn), c.SrcExpr(o))
+			if S[o.Block()] {
+				// collected in the block that allocates it: only when the collecting instruction comes later
+				r.ok(ruleKept, key, c.InstrPos(o), "collected in the block that allocates it", true)
+				continue
+			}
+			if !reachS(o.Block()) {
+				r.ok(ruleKept, key, c.InstrPos(o), "collected through another value of the same iteration", false)
+				continue
+			}
+			bad := ""
+			visited := map[*ssa.BasicBlock]bool{}
+			st := []*ssa.BasicBlock{o.Block()}
+			for len(st) > 0 && bad == "" {
+				b := st[len(st)-1]
+				st = st[:len(st)-1]
+				if visited[b] || S[b] {
+					continue
+				}
+				visited[b] = true
+				for k, s2 := range b.Succs {
+					if S[s2] {
+						continue
+					}
+					leavesLoop := s2 == li.header || !li.body[s2]
+					if !leavesLoop && reachS(s2) {
+						st = append(st, s2)
+						continue
+					}
+					// s2 cannot collect the object any more in this iteration
+					if !leavesLoop && c.onlyErrorExit(s2) || leavesLoop && s2 != li.header && c.onlyErrorExit(s2) {
+						continue
+					}
+					iff, isIf := b.Instrs[len(b.Instrs)-1].(*ssa.If)
+					if !isIf {
+						bad = "the iteration can end without collecting the object (block " + fmt.Sprint(b.Index) + ")"
+						break
+					}
+					if why := constComparison(iff.Cond, 0); why != "" {
+						bad = fmt.Sprintf("the object is left out on the %v side of `%s` at %s, %s", k == 0, c.SrcExpr(iff), c.InstrPos(iff), why)
+						break
+					}
+				}
+			}
+			if bad == "" {
+				r.ok(ruleKept, key, c.InstrPos(o), "every path of the iteration collects the object, fails, or leaves it out by a comparison with a constant", true)
+			} else {
+				r.bad(ruleKept, key, c.InstrPos(o), bad+": a decoded list can lack an element the datagram carries")
+			}
+		}
 	}
+}
+
+// constComparison: cond is a comparison (or a bit test) of one computed value with a constant, or a negation /
+// conjunction of such; "" if so, else what was found.
+func constComparison(v ssa.Value, depth int) string {
+	if depth > 4 {
+		return "which is too deep to classify"
+	}
+	switch x := v.(type) {
+	case *ssa.BinOp:
+		switch x.Op {
+		case token.EQL, token.NEQ, token.LSS, token.LEQ, token.GTR, token.GEQ:
+			_, kx := x.X.(*ssa.Const)
+			_, ky := x.Y.(*ssa.Const)
+			if kx || ky {
+				return ""
+			}
+			return "a comparison of two computed values"
+		case token.AND, token.OR, token.LAND, token.LOR:
+			if w := constComparison(x.X, depth+1); w != "" {
+				return w
+			}
+			return constComparison(x.Y, depth+1)
+		}
+	case *ssa.UnOp:
+		if x.Op == token.NOT {
+			return constComparison(x.X, depth+1)
+		}
+	case *ssa.Phi:
+		for _, e := range x.Edges {
+			if _, isK := e.(*ssa.Const); isK {
+				continue
+			}
+			if w := constComparison(e, depth+1); w != "" {
+				return w
+			}
+		}
+		return ""
+	case *ssa.Extract:
+		// the ok of a comma-ok look-up or assertion
+		return "a run-time look-up result"
+	}
+	return "which is not a comparison with a constant"
 }
 
 func isPointerLike(t types.Type) bool {
